@@ -191,6 +191,15 @@ def handleR (car : Carrier α) (args : List String) : String :=
       | .unitary u t => return s!"u {intListStr t} {strArr car u}"
       | .control u c t => return s!"c {intListStr c} {intListStr t} {strArr car u}"
       | _ => return "bad-op"
+  | ["indices", prog] => Id.run do
+      -- the index part of `gate_index_list` after all appends and in-place shifts of the program
+      let some prog := parseProg car prog | return "bad-op"
+      let f := fun (l : List Int) => if l.isEmpty then "-" else intListStr l
+      return "|".intercalate (prog.map fun g => match g with
+        | .unitary _ t => s!"u:{f t}"
+        | .control _ c t => s!"c:{f c}:{f t}"
+        | .measure sq _ => s!"m:{f sq}"
+        | .custom _ => "x")
   | ["unitary", prog] => Id.run do
       let some prog := parseProg car prog | return "bad-op"
       if prog.isEmpty || prog.any RawOp.isMeasure then return "error"
